@@ -218,23 +218,52 @@ theorem distKey_norm (s : Store) (p : Pt) (h : s.cfg.kind = .plain ∨ s.trained
   unfold Store.distKey norm
   cases hk : s.cfg.kind <;> cases ht : s.trained <;> by_cases hc : p.code = [] <;> simp_all
 
+theorem norm_code (p : Pt) : (norm p).code = p.code := by
+  unfold norm
+  by_cases h : p.code = [] <;> simp [h]
+
+/-- `flat.Search` depends on the distance closure only through its values on the enumerated items -/
+theorem search_congr {α : Type} (op : SkipOp) (limit : Nat) (pass : Id → Bool) (d₁ d₂ : α → D) (l : List (Id × α))
+    (h : ∀ it ∈ l, d₁ it.2 = d₂ it.2) : search op limit pass d₁ l = search op limit pass d₂ l := by
+  unfold search
+  congr 1
+  generalize ([] : List (Res D)) = acc
+  induction l generalizing acc with
+  | nil => rfl
+  | cons it rest ih =>
+    simp only [List.foldl_cons]
+    rw [h it List.mem_cons_self]
+    exact ih (fun x hx => h x (List.mem_cons_of_mem _ hx)) _
+
+theorem candsOf_congr {α : Type} (pass : Id → Bool) (d₁ d₂ : α → D) (l : List (Id × α))
+    (h : ∀ it ∈ l, d₁ it.2 = d₂ it.2) : candsOf pass d₁ l = candsOf pass d₂ l := by
+  unfold candsOf
+  apply List.map_congr_left
+  intro it hit
+  rw [h it (List.mem_filter.mp hit).1]
+
 /-- **C04_warm_cold**: take the same committed bucket, a store whose quantiser parameters are the
 persisted ones, and two coherent caches — e.g. the warm shared cache and a fresh one (cold start,
-eviction, cache disabled).  `ForEach` succeeds on both, and the two flat searches agree: equal
-distance sequences; every tie group that lies wholly inside one answer has the same members in the
-other; every returned id is readable from the bucket and carries the distance of its persisted
-projection.  (`distKey_norm`: the closure's input `distKey p` is a function of the persisted
-projection `norm p` in every reachable state — in an untrained or plain store no point carries a
-code; `_hmode` records that side condition, the statement itself is already phrased over `norm`.) -/
+eviction, cache disabled).  `ForEach` succeeds on both, and the two flat searches — each applying THE
+CLOSURE THE CODE APPLIES, `dist (s.distKey p)` on the point as it sits in that cache (a warm cache may hold
+more of a point than its persisted projection: the full vector beside a code) — agree: equal distance
+sequences; every tie group that lies wholly inside one answer has the same members in the other; every
+returned id is readable from the bucket and carries the distance of its persisted projection.
+
+Hypothesis `hmode` (USED: it is what makes the closure a function of the persisted projection,
+`distKey_norm`): while the store reads vectors — plain store, or quantiser not yet trained — no committed
+point carries a code.  It holds in every state the store reaches (codes are written by `Fit`, which trains),
+and it cannot be dropped: an untrained binary store over a bucket holding `{vec, code}` reads `vec` from a
+warm item and `[]` from the cold one (`example` below). -/
 theorem C04_warm_cold (s : Store) (dist : Bytes → D) (op₁ op₂ : SkipOp) (limit : Nat) (pass : Id → Bool)
     {c₁ c₂ : Cache Id Pt} {kv : KV} (hwf : wfOf s.cfg.kind kv)
     (h₁ : Coherent s.st norm (okOf s.cfg.kind) c₁ kv) (h₂ : Coherent s.st norm (okOf s.cfg.kind) c₂ kv)
-    (_hmode : s.cfg.kind = .plain ∨ s.trained = false → ∀ id p, obs s.st norm kv id = some p → p.code = []) :
+    (hmode : s.cfg.kind = .plain ∨ s.trained = false → ∀ id p, obs s.st norm kv id = some p → p.code = []) :
     ∃ c₁' l₁ c₂' l₂, forEach s.st c₁ kv = some (c₁', l₁) ∧ forEach s.st c₂ kv = some (c₂', l₂) ∧
-      let r₁ := search op₁ limit pass (fun p => dist (s.distKey (norm p))) l₁
-      let r₂ := search op₂ limit pass (fun p => dist (s.distKey (norm p))) l₂
+      let r₁ := search op₁ limit pass (fun p => dist (s.distKey p)) l₁
+      let r₂ := search op₂ limit pass (fun p => dist (s.distKey p)) l₂
       r₁.map (·.d) = r₂.map (·.d) ∧
-      (∀ g : D, ((candsOf pass (fun p => dist (s.distKey (norm p))) l₁).filter fun c => c.d = g).length ≤
+      (∀ g : D, ((candsOf pass (fun p => dist (s.distKey p)) l₁).filter fun c => c.d = g).length ≤
           (r₁.filter fun c => c.d = g).length →
         (r₂.filter fun c => decide (c.d = g)) ~ (r₁.filter fun c => decide (c.d = g))) ∧
       (∀ r, r ∈ r₁ ∨ r ∈ r₂ → pass r.id = true ∧ ∃ p, obs s.st norm kv r.id = some p ∧ r.d = dist (s.distKey p)) := by
@@ -242,6 +271,19 @@ theorem C04_warm_cold (s : Store) (dist : Bytes → D) (op₁ op₂ : SkipOp) (l
   have hmem₂ : ∀ id p, (id, p) ∈ (l₂.map fun p => (p.1, norm p.2)) ↔ obs s.st norm kv id = some p :=
     fun id p => (hperm.mem_iff).symm.trans (hmem id p)
   refine ⟨c₁', l₁, c₂', l₂, e₁, e₂, ?_⟩
+  -- on the enumerated items the closure of the code reads the persisted projection only (uses `hmode`)
+  have hcl : ∀ (l : List (Id × Pt)),
+      (∀ id p, (id, p) ∈ (l.map fun p => (p.1, norm p.2)) ↔ obs s.st norm kv id = some p) →
+      ∀ it ∈ l, dist (s.distKey it.2) = dist (s.distKey (norm it.2)) := by
+    intro l hm it hit
+    have hobs : obs s.st norm kv it.1 = some (norm it.2) :=
+      (hm it.1 (norm it.2)).mp (List.mem_map.mpr ⟨it, hit, rfl⟩)
+    rw [distKey_norm s it.2 (fun hk => by
+      have := hmode hk it.1 (norm it.2) hobs
+      rwa [norm_code] at this)]
+  rw [search_congr op₁ limit pass (fun p => dist (s.distKey p)) (fun p => dist (s.distKey (norm p))) l₁ (hcl l₁ hmem),
+    search_congr op₂ limit pass (fun p => dist (s.distKey p)) (fun p => dist (s.distKey (norm p))) l₂ (hcl l₂ hmem₂),
+    candsOf_congr pass (fun p => dist (s.distKey p)) (fun p => dist (s.distKey (norm p))) l₁ (hcl l₁ hmem)]
   -- searching `l` with `dist ∘ distKey ∘ norm` is searching the projected list with `dist ∘ distKey`
   have hs : ∀ (op : SkipOp) (l : List (Id × Pt)),
       search op limit pass (fun p => dist (s.distKey (norm p))) l =
@@ -268,6 +310,44 @@ theorem C04_warm_cold (s : Store) (dist : Bytes → D) (op₁ op₂ : SkipOp) (l
   rcases hr with hr | hr
   · exact cand op₁ l₁ hmem hr
   · exact cand op₂ l₂ hmem₂ hr
+
+/-- `hmode` cannot be dropped: for an untrained binary store the closure reads the vector; a warm item
+`{vec, code}` and its persisted projection `{code}` (what a cold cache reads back) give different inputs -/
+example : (let s : Store := { cfg := { kind := .binary, trigger := 5 } }
+    let p : Pt := { vec := [1#8], code := [2#8] }
+    s.trained = false ∧ s.distKey p = [1#8] ∧ s.distKey (norm p) = []) := by decide
+
+/-- the hypotheses of `C04_warm_cold` are satisfiable on a non-empty bucket with a warm and a cold cache: a
+trained binary store (`hmode` is then vacuous by its premise), the coherent pair `C08.exWarm` -/
+example : ∃ (s : Store) (c₁ c₂ : Cache Id Pt) (kv : KV),
+    s.cfg.kind = .binary ∧ s.trained = true ∧ wfOf s.cfg.kind kv ∧
+    Coherent s.st norm (okOf s.cfg.kind) c₁ kv ∧ Coherent s.st norm (okOf s.cfg.kind) c₂ kv ∧
+    c₁.items.length = 2 ∧ c₂.items.length = 0 ∧
+    (s.cfg.kind = .plain ∨ s.trained = false → ∀ id p, obs s.st norm kv id = some p → p.code = []) := by
+  refine ⟨{ cfg := { kind := .binary, trigger := 1 }, params := [7#8] }, C08.exWarm.1, Cache.empty, C08.exWarm.2,
+    rfl, by decide, trivial, ?_, ?_, by decide, rfl, ?_⟩
+  · exact (C08.C08_flush_binary C08.exWarm_tracked).1
+  · exact C08.coherent_empty _ _ _ _
+  · intro h; rcases h with h | h <;> simp [Store.trained] at h
+
+/-- … and with an UNTRAINED plain store over a bucket of raw vectors, where the premise of `hmode` holds and
+its conclusion has to be (and is) established: no committed point carries a code -/
+example : ∃ (s : Store) (c₁ : Cache Id Pt) (kv : KV),
+    s.cfg.kind = .plain ∧ Coherent s.st norm (okOf s.cfg.kind) c₁ kv ∧ c₁.items.length = 1 ∧
+    (s.cfg.kind = .plain ∨ s.trained = false → ∀ id p, obs s.st norm kv id = some p → p.code = []) := by
+  have ht : Tracked (storable plainPoint) norm okPlain (put Cache.empty 5#64 { vec := [1#8] }) KV.empty :=
+    tracked_put (coherent_empty _ _ _ _).tracked _ _ rfl
+  refine ⟨{ cfg := { kind := .plain, trigger := 0 } }, (flush (storable plainPoint) (put Cache.empty 5#64 { vec := [1#8] }) KV.empty).1,
+    (flush (storable plainPoint) (put Cache.empty 5#64 { vec := [1#8] }) KV.empty).2, rfl, (C08.C08_flush_plain ht).1, by decide, ?_⟩
+  intro _ id p hp
+  -- a plain point read back never has a code
+  revert hp
+  simp only [Store.st, planOf]
+  plan_simp []
+  intro h
+  cases hg : KV.get _ (nodeKey id 0x76#8) <;> simp_all
+  rintro rfl rfl
+  simp
 
 /-! ### non-vacuity -/
 
